@@ -34,7 +34,7 @@ func seqValue(api string, i int) *Val {
 	return strVal(fmt.Sprintf("call %d\nsecond line", i))
 }
 
-func cfgSeqScenario(id string, cs *cfgSeq, update *bool, jsonCfg *JSONCfg, mode string) *Scenario {
+func cfgSeqScenario(id string, cs *cfgSeq, update *bool, jsonCfg *JSONCfg, mode string, mix int) *Scenario {
 	sc := &Scenario{ID: id, Configs: stdConfigs(), Program: []string{"TestA"}}
 	k := &Cfg{Dir: sp("@/snaps"), Update: update, JSON: jsonCfg}
 	if cs.Opts.Filename != "" {
@@ -47,7 +47,11 @@ func cfgSeqScenario(id string, cs *cfgSeq, update *bool, jsonCfg *JSONCfg, mode 
 	mk := func() []*Step {
 		st := []*Step{{Op: "begin", Name: "TestA"}}
 		for i, api := range cs.Seq {
-			st = append(st, &Step{Op: "match", Name: "TestA", API: api, Cfg: "k", Val: seqValue(api, i)})
+			via := ""
+			if mix > 0 && (i+mix)%2 == 0 {
+				via = "otherfile" // the call is made through a helper of another test file
+			}
+			st = append(st, &Step{Op: "match", Name: "TestA", API: api, Cfg: "k", Val: seqValue(api, i), Via: via})
 		}
 		return append(st, &Step{Op: "end", Name: "TestA"})
 	}
@@ -99,7 +103,7 @@ func checkC12(c *CheckCtx) error {
 			jc = &JSONCfg{Width: 20, Indent: "    ", SortKeys: false}
 		}
 		mode := []string{"ci", "default", "update"}[n%3]
-		sc := cfgSeqScenario(fmt.Sprintf("q%d", n), cs, upd, jc, mode)
+		sc := cfgSeqScenario(fmt.Sprintf("q%d", n), cs, upd, jc, mode, n%3)
 		scs = append(scs, sc)
 		c.nontrivial(sc.Note)
 		if n == 7 {
